@@ -432,9 +432,9 @@ def part_modules(part, n):
 
 def parts(tier, seed):
     if tier == "quick":
-        ps = [(f"tokens-{i}", part_tokens, {"n": 4000}) for i in range(4)]
+        ps = [(f"tokens-{i}", part_tokens, {"n": 8000}) for i in range(4)]
         ps += [("matrix", part_token_matrix, {})]
-        ps += [(f"programs-{i}", part_programs, {"n": 1200}) for i in range(5)]
+        ps += [(f"programs-{i}", part_programs, {"n": 2500}) for i in range(5)]
         ps += [(f"modules-{i}", part_modules, {"n": 25}) for i in range(4)]
     else:
         ps = [(f"tokens-{i}", part_tokens, {"n": 80000}) for i in range(4)]
